@@ -1,16 +1,16 @@
 SPECIFICATION Spec
 CONSTANTS
   Classes <- Classes4
-  Outs <- OutsC05
+  Outs <- OutsC05x
   Durs = {0}
   CDurs <- ZeroDur
   EDurs <- ZeroDur
   Rets <- RetsAll
   Advs <- AdvsExact
-  Decs <- DecsSleep
+  Decs <- DecsAll
   BFaults <- BFaultsNone
   Ras <- RasSome
-  Modes = {"exec"}
+  Modes = {"call", "exec"}
   RunGaps <- GapsNone
   NRuns = 1
   Configs <- ConfigsC05x
